@@ -50,7 +50,8 @@ char* GetErrorPos(void) {
     VASSUME(p[1] == ' ' || p[1] == 0 || p[1] == ')');
     return p;
 }
-void WrLstLine(char const* Line) { (void)Line; g_lst_lines++; }
+/* a listing line is only written while LISTING is on and the listing does not go to the null device (guard of the real WrLstLine, asmsub.c) */
+void WrLstLine(char const* Line) { (void)Line; if (ListOn != 0 && !ListToNull) g_lst_lines++; }
 void WrConsoleLine(char const* pLine, Boolean NewLine) { (void)pLine; (void)NewLine; g_con_lines++; }
 void OpenWithStandard(FILE** ppFile, char* Path) { (void)Path; if (g_errfile_open) *ppFile = &g_file_obj; else *ppFile = NULL; }
 void CloseIfOpen(FILE** ppFile) { *ppFile = NULL; }
@@ -96,6 +97,9 @@ static void mk_env(void) {
     { int k; VND(k, int); VASSUME(k >= 0 && k <= 2);
       if (k == 0) strcpy(lstname_buf, "/dev/null"); else if (k == 1) strcpy(lstname_buf, "!1"); else strcpy(lstname_buf, "x.lst"); }
     LstName = lstname_buf;
+    /* as.c sets both flags from the name when the listing name is fixed */
+    ListToStdout = !strcmp(LstName, "!1");
+    ListToNull   = !strcmp(LstName, "/dev/null");
     ErrorName = name_buf; OutName = name_buf + 6; ShareName = name_buf + 7; MacProName = name_buf + 8; MacroName = name_buf + 9;
     { Boolean open; VND(open, uchar); ErrorFile = (open & 1) ? &g_file_obj : NULL; }
     VND(g_errfile_open, int);
